@@ -216,8 +216,19 @@ structure PU where
   dafter : Float
   rmAfter : Bool
 
+structure IneqBuf where
+  rd : String := "-"
+  hdr : Array String := #[]
+  us : Array (IUnk Float) := #[]
+  jac : Array (List Float) := #[]
+  normal : List Float := []
+  x : List Float := []
+  res : List Float := []
+  beq : List Nat := []
+
 structure Probe where
   id : String := "?"
+  iq : IneqBuf := {}
   env : Env Float := { tol := 1e-8, ineqTol := 1e-15, minRel := 1e-23 }
   iterations : Nat := 1
   rd : String := "-"
@@ -265,10 +276,55 @@ def doRound (p : Probe) : List String :=
      pline p "probe-reset-moles" u.k (close 1e-15 0.0 u.mafter a.moles) u.mafter a.moles,
      pline p "probe-reset-delta" u.k (close 1e-15 0.0 u.dafter (d / scan.2)) u.dafter (d / scan.2)]
 
+/-- one `ineq(1)` call of the real code against the row model: `back_eq` (which rows exist, in which order), cl1's residual of
+every row (= rhs − row·x for the model's row), feasibility of the inequality rows and of the sign restrictions -/
+def doIneq (p : Probe) : List String :=
+  let q := p.iq
+  if q.hdr.size == 0 then [] else
+  let ret := nat (q.hdr.getD 2 "0")
+  let n := nat (q.hdr.getD 3 "0")
+  let env : IEnv Float := { iterations := nat (q.hdr.getD 4 "0"), aqueousOnly := nat (q.hdr.getD 5 "0"), equiDelay := nat (q.hdr.getD 6 "0"),
+                             ppScale := fx (q.hdr.getD 7 ""), inKode := nat (q.hdr.getD 8 "1"), minRel := fx (q.hdr.getD 9 ""), minTotalSS := fx (q.hdr.getD 10 ""),
+                             massWaterSwitch := q.hdr.getD 11 "0" == "1", oxygenIdx := nat (q.hdr.getD 12 "999999"), hydrogenIdx := nat (q.hdr.getD 13 "999999"),
+                             exchRelated := q.hdr.getD 14 "0" == "1" }
+  let us := q.us.toList
+  -- rows are built from the column-scaled matrix: entry·normal[j]; the last column (residual) is not scaled
+  let jac := q.jac.toList.map fun r => ((r.take n).zip q.normal).map (fun a => a.1 * a.2) ++ [r.getD n 0.0]
+  let rows := ineqRows env us jac
+  let z := ineqZero env us
+  let signs := ineqSigns us
+  let srcs := rows.map (·.src)
+  let beqOk := q.beq.take rows.length == srcs
+  let tailOk := (q.res.drop rows.length).all fun v => v == 0.0
+  let pl (kind : String) (k : Nat) (ok : Bool) (a b : Float) : String := s!"T {p.id} {q.rd} {kind} {k} {okS ok} {hf a} {hf b}"
+  let base := [pl "ineq-backeq" rows.length (beqOk && tailOk) (q.beq.take rows.length).length.toFloat rows.length.toFloat]
+  if ret != 1 || !beqOk then base else
+  let evals := (rows.zip q.res).map fun (r, rs) =>
+    let lhs := r.lhs z q.x
+    -- Σ|coef·x| + |rhs|: cl1's residuals carry the rounding of its pivoting, relative to the size of the terms of the row
+    let absRow : IRow Float := match r with
+      | .dense k sr c rh re => .dense k sr (c.map absF) rh re
+      | .unit sr col c rh => .unit sr col (absF c) rh
+    let scale := absRow.lhs z (q.x.map absF) + absF r.rhs
+    (absF (rs - (r.rhs - lhs)), scale, r.kind, rs)
+  -- cl1's accuracy differs by section (measured): inequality rows are exact to 1e-14, equality rows to 1e-9 absolute,
+  -- optimisation rows of ill-conditioned crafted states can be off by 1e-3; the latter are judged as a fraction per case
+  let tolOf (k : Nat) (scale : Float) : Float := if k == 2 then 1e-9 * scale + 1e-12 else 1e-6 * scale + 1e-8
+  let hard := evals.filter fun e => e.2.2.1 != 0
+  let worst := hard.foldl (fun acc e => if acc.1 - tolOf acc.2.2.1 acc.2.1 < e.1 - tolOf e.2.2.1 e.2.1 then e else acc) (0.0, 0.0, 2, 0.0)
+  let rowsOk := hard.all fun e => e.1 ≤ tolOf e.2.2.1 e.2.1
+  let feasOk := hard.all fun e => if e.2.2.1 == 2 then e.2.2.2 ≥ -(tolOf 2 e.2.1) else absF e.2.2.2 ≤ tolOf 1 e.2.1
+  let signOk := (signs.zip q.x).all fun (sg, xv) => !(sg < 0.0) || xv ≤ 1e-12
+  let opt := evals.filter fun e => e.2.2.1 == 0
+  let optTight := (opt.filter fun e => e.1 ≤ 1e-5 * e.2.1 + 1e-10).length
+  base ++ [pl "ineq-rows" hard.length rowsOk worst.1 worst.2.1, pl "ineq-feasible" hard.length feasOk 0.0 0.0,
+           pl "ineq-signs" n signOk 0.0 0.0, pl "ineq-opt-rows" opt.length true optTight.toFloat opt.length.toFloat]
+
 partial def loop (h : IO.FS.Stream) (out : IO.FS.Stream) (b : Blk) (p : Probe) : IO Unit := do
   let line ← h.getLine
   if line.isEmpty then
     for l in doRound p do out.putStrLn l
+    for l in doIneq p do out.putStrLn l
     return
   let w := (words line).toArray
   match w.getD 0 "" with
@@ -297,13 +353,24 @@ partial def loop (h : IO.FS.Stream) (out : IO.FS.Stream) (b : Blk) (p : Probe) :
     loop h out {} p
   | "PROBE" =>
     for l in doRound p do out.putStrLn l
+    for l in doIneq p do out.putStrLn l
     loop h out b { id := w.getD 1 "?" }
   | "PG" =>
     let env : Env Float := { tol := fx (w.getD 1 ""), ineqTol := fx (w.getD 2 ""), minRel := fx (w.getD 3 "") }
     loop h out b { p with env := env, iterations := nat (w.getD 4 "1") }
   | "PRD" =>
     for l in doRound p do out.putStrLn l
-    loop h out b { p with rd := w.getD 1 "-", prd := w, us := #[] }
+    for l in doIneq p do out.putStrLn l
+    loop h out b { p with rd := w.getD 1 "-", prd := w, us := #[], iq := {} }
+  | "PQ" => loop h out b { p with iq := { rd := w.getD 1 "-", hdr := w } }
+  | "PQU" =>
+    let u : IUnk Float := { type := nat (w.getD 3 "0"), moles := fx (w.getD 4 ""), f := fx (w.getD 5 ""), initial := fx (w.getD 6 ""), grams := fx (w.getD 7 ""), iteration := nat (w.getD 8 "0"), phaseIn := w.getD 9 "1" == "1", dissolveOnly := w.getD 10 "0" == "1", addFormula := w.getD 11 "0" == "1", forceEq := w.getD 12 "0" == "1", ssIn := w.getD 13 "0" == "1" }
+    loop h out b { p with iq := { p.iq with us := p.iq.us.push u } }
+  | "PQM" => loop h out b { p with iq := { p.iq with jac := p.iq.jac.push ((w.toList.drop 3).map fx) } }
+  | "PQN" => loop h out b { p with iq := { p.iq with normal := (w.toList.drop 2).map fx } }
+  | "PQX" => loop h out b { p with iq := { p.iq with x := (w.toList.drop 2).map fx } }
+  | "PQR" => loop h out b { p with iq := { p.iq with res := (w.toList.drop 2).map fx } }
+  | "PQB" => loop h out b { p with iq := { p.iq with beq := (w.toList.drop 2).map nat } }
   | "PU" =>
     let u : PU := { k := nat (w.getD 2 "0"), f := fx (w.getD 3 ""), moles := fx (w.getD 4 ""), ini := fx (w.getD 5 ""),
                     dis := w.getD 6 "0" == "1", addf := w.getD 7 "0" == "1", resid := fx (w.getD 8 ""), rdel := fx (w.getD 9 ""),
@@ -311,6 +378,7 @@ partial def loop (h : IO.FS.Stream) (out : IO.FS.Stream) (b : Blk) (p : Probe) :
     loop h out b { p with us := p.us.push u }
   | "END" =>
     for l in doRound p do out.putStrLn l
+    for l in doIneq p do out.putStrLn l
     loop h out b {}
   | _ => loop h out b p
 
